@@ -97,6 +97,8 @@ THEOREMS = [
     "OllamaVerif.Tie.C09.follow_matches_nethttp",
     "OllamaVerif.Tie.C09.mrr_table_complete",
     "OllamaVerif.Tie.C09.mrr_matches_makeRequestWithRetry",
+    "OllamaVerif.Tie.C09.begin_table_complete",
+    "OllamaVerif.Tie.C09.beginLayer_matches_model",
     "OllamaVerif.Tie.C09.verify_table_complete",
     "OllamaVerif.Tie.C09.verifyLayer_matches_model",
     "OllamaVerif.Tie.C09.tree_verifies",
@@ -191,11 +193,11 @@ def regenerate_tables(ctx):
     finite status domain, and the variant probes; emit Generated/C09_HttpTables.lean and C09_Variant.lean.
     A driver that fails leaves empty tables: the Tie theorems (completeness) then fail closed."""
     import os
-    send, fol, mrr, var, ver = [], [], [], {}, []
+    send, fol, mrr, var, ver, beg = [], [], [], {}, [], []
     rc, out, outdir = ctx.go_test("./server/internal/client/ollama/", OVERLAY_TABLES, "^TestVerifC09Tables$")
     if rc == 0:
         rd = lambda n: [l.split() for l in open(os.path.join(outdir, n))] if os.path.exists(os.path.join(outdir, n)) else []
-        send, fol, ver = rd("send.txt"), rd("follow.txt"), rd("verify.txt")
+        send, fol, ver, beg = rd("send.txt"), rd("follow.txt"), rd("verify.txt"), rd("begin.txt")
         var.update({k: v for k, v in rd("variant.txt")})
     else:
         ctx.notes.append("table driver (client) failed: " + out[-400:])
@@ -219,6 +221,8 @@ def regenerate_tables(ctx):
             "def mrrTable : List (String × Nat × String) := [" + ", ".join(f'("{m}", {st}, "{c}")' for m, st, c in mrr) + "]\n"
             "/-- (relation of the blob file to the manifest entry, did the real verifyLayer pass, is the file still there) -/\n"
             "def verifyTable : List (String × Bool × Bool) := [" + ", ".join(f'("{n}", {b(o)}, {b(x)})' for n, o, x in ver) + "]\n"
+            "/-- (blob file length, -1 = no file; manifest size; size shortcut taken; else: pre-validated Chunker; a blob file exists afterwards) -/\n"
+            "def beginTable : List (Int × Nat × Bool × Bool × Bool) := [" + ", ".join(f'({fl}, {sz}, {b(sc)}, {b(pr)}, {b(ex)})' for fl, sz, sc, pr, ex in beg) + "]\n"
             "end OllamaVerif.Generated.C09\n")
     core.write_generated("OllamaVerif/Generated/C09_HttpTables.lean", body)
     for n, o, x in ver:
